@@ -271,7 +271,11 @@ fn judge_det_scaling(st: &mut Stats, rng: &mut Rng, class: &str, ar: &DM<Rat>) {
     // d0*2^-1030 is representable to ~44 bits; it must come out finite and close to it (a reciprocal of a subnormal
     // pivot overflows; a quotient by it does not)
     let nonsingular = matches!(catch(|| exact_det_rank_inv(ar)), Outcome::Ok((d, _, _)) if !d.is_zero());
-    if n >= 2 && nonsingular && rng.chance(0.15) {
+    // (only for matrices without tiny entries: with a leading entry of 2^-40 the expected value d0*2^-1030 lies so deep in the
+    //  subnormal range - and the running product of pivots dips deeper still - that gradual underflow legitimately costs most of
+    //  its digits; thorough seed 3 showed a 26 % deviation at 6e-319, which is rounding, not a defect)
+    let no_tiny = af.iter().flatten().all(|v| *v == 0.0 || v.abs() >= 2f64.powi(-20));
+    if n >= 2 && nonsingular && no_tiny && rng.chance(0.15) {
         let j0 = rng.usize(0, n - 1);
         let asub: Vec<Vec<f64>> = af.iter().map(|r| r.iter().enumerate().map(|(j, v)| if j == j0 { v * 2f64.powi(-515) * 2f64.powi(-515) } else { *v }).collect()).collect();
         st.eval();
